@@ -310,7 +310,8 @@ def load_known(prop):
         except OSError:
             continue
         for f in data.get("findings", []):
-            if f.get("property") == prop:
+            # an entry belongs to the check <prop> when it names it as property (and no other engine) or as engine
+            if (f.get("property") == prop and f.get("engine", prop) == prop) or f.get("engine") == prop:
                 out[f["code"]] = f
     return out
 
@@ -321,8 +322,9 @@ def load_known(prop):
 class Check:
     """One run of one property's check."""
 
-    def __init__(self, prop, module, tier, seed):
+    def __init__(self, prop, module, tier, seed, report_id=None):
         self.prop, self.mod, self.tier, self.seed = prop, module, tier, seed
+        self.report_id = report_id or prop      # the property id printed in VIOLATION / KNOWN-FINDING lines
         self.rng = random.Random(seed)
         self.t0 = time.time()
         self.violations = []      # (kind, replay_path, text, tail)
@@ -424,7 +426,7 @@ class Check:
         out = []
         # known findings
         for k, (f, inp) in sorted(self.known_seen.items()):
-            out.append(f"KNOWN-FINDING: property={self.prop} {f['id']} {f['what']}")
+            out.append(f"KNOWN-FINDING: property={self.report_id} {f['id']} {f['what']}")
         n = 0
         for stream, inp, line, ans, why in first_viol[:3]:
             n += 1
@@ -432,21 +434,21 @@ class Check:
                 property=self.prop, kind="failing-input", why=why, stream=stream, input=inp,
                 describe=describe(self.mod, inp), case=line, judge=ans,
                 replay=f"./check {self.prop} --replay replays/{self.prop}_viol_{n}.json"))
-            out.append(f"VIOLATION property={self.prop} replay={path}")
+            out.append(f"VIOLATION property={self.report_id} replay={path}")
         if not first_viol and proof_broken:
             why = ("forbidden construct: " + "; ".join(props["forbidden"])) if props["forbidden"] else "theorem file no longer compiles"
             path = self.write_replay(f"{self.prop}_proof.json", dict(
                 property=self.prop, kind="proof-broken", why=why, theorem_file=f"coq/Props/{self.prop}.v",
                 theorems=props["theorems"], gen=self.gen_notes, log=props["log"][-4000:],
                 searched=self.stats.get("evaluations", 0)))
-            out.append(f"VIOLATION property={self.prop} replay={path} no-failing-input-found")
+            out.append(f"VIOLATION property={self.report_id} replay={path} no-failing-input-found")
         if not first_viol and not proof_broken and first_corr:
             stream, inp, line, ans, why = first_corr[0]
             path = self.write_replay(f"{self.prop}_corr.json", dict(
                 property=self.prop, kind="correspondence-broken", why=why,
                 relation=f"coq/Judge/J{self.prop}.v: observation = model output", stream=stream, input=inp,
                 describe=describe(self.mod, inp), case=line, judge=ans, differing_cases=self.stats["tally"]["corr"] + self.stats["tally"]["error"]))
-            out.append(f"VIOLATION property={self.prop} replay={path} no-failing-input-found")
+            out.append(f"VIOLATION property={self.report_id} replay={path} no-failing-input-found")
         # cross-check extraction against vm_compute on a sample
         xn, xbad = 0, []
         if self.lines:
@@ -456,7 +458,7 @@ class Check:
                 xn, xbad, xlog = coq_crosscheck(self.prop, [self.lines[i] for i in idx], [self.answers[i] for i in idx])
             if xbad:
                 path = self.write_replay(f"{self.prop}_extraction.json", dict(property=self.prop, kind="extraction-mismatch", log=xlog))
-                out.append(f"VIOLATION property={self.prop} replay={path} no-failing-input-found")
+                out.append(f"VIOLATION property={self.report_id} replay={path} no-failing-input-found")
         # thorough tier: independent re-check of the compiled theorem file and everything it depends on
         self.coqchk = None
         if self.tier == "thorough" and props["ok"]:
@@ -466,7 +468,7 @@ class Check:
             self.coqchk = dict(exit=rc, summary=" ".join(summary.split())[:1500])
             if rc != 0 or "Axioms: <none>" not in " ".join(summary.split()):
                 path = self.write_replay(f"{self.prop}_coqchk.json", dict(property=self.prop, kind="coqchk", output=cout[-3000:]))
-                out.append(f"VIOLATION property={self.prop} replay={path} no-failing-input-found")
+                out.append(f"VIOLATION property={self.report_id} replay={path} no-failing-input-found")
         self.write_evidence(props, proof_broken, xn, len([o for o in out if o.startswith("VIOLATION")]))
         for o in out:
             print(o)
@@ -503,10 +505,12 @@ class Check:
             # a broken proof discharges nothing: drop the proof-level keys so the generic counts apply
             cov["obligations_attempted"] = cov.pop("obligations")
             cov.pop("discharged")
-        ev = dict(property_id=self.prop, tier=self.tier, seed=self.seed, level="proof", coverage=cov,
+        ev = dict(property_id=self.report_id, tier=self.tier, seed=self.seed, level="proof", coverage=cov,
                   assumptions=list(getattr(mod, "ASSUMPTIONS", [])), wall_s=round(time.time() - self.t0, 2), violations=nviol)
-        os.makedirs(os.path.join(VERIF, "evidence"), exist_ok=True)
-        json.dump(ev, open(os.path.join(VERIF, "evidence", f"{self.prop}.json"), "w"), indent=1, default=str)
+        self.evidence = ev
+        if self.report_id == self.prop:
+            os.makedirs(os.path.join(VERIF, "evidence"), exist_ok=True)
+            json.dump(ev, open(os.path.join(VERIF, "evidence", f"{self.prop}.json"), "w"), indent=1, default=str)
 
     def replay(self, path):
         data = json.load(open(path))
@@ -612,10 +616,44 @@ def main(argv):
     sys.path.insert(0, SRC)
     sys.path.insert(0, os.path.join(VERIF, "harness"))
     mod = importlib.import_module(a.prop.lower())
-    chk = Check(a.prop, mod, a.tier if a.tier in ("quick", "thorough") else "quick", seed)
+    tier = a.tier if a.tier in ("quick", "thorough") else "quick"
+    chk = Check(a.prop, mod, tier, seed)
     if a.replay:
+        # a replay file names the engine that produced it (C12b_viol_1.json -> engine C12b)
+        eng = os.path.basename(a.replay).split("_")[0]
+        if eng != a.prop and eng in getattr(mod, "ALSO", []):
+            return Check(eng, importlib.import_module(eng.lower()), tier, seed, report_id=a.prop).replay(a.replay)
         return chk.replay(a.replay)
-    return chk.run()
+    rc = chk.run()
+    # further engines deciding the same property (each its own model, theorems and judge); one evidence file
+    subs = {}
+    for eng in getattr(mod, "ALSO", []):
+        sub = Check(eng, importlib.import_module(eng.lower()), tier, seed, report_id=a.prop)
+        rc = max(rc, sub.run())
+        subs[eng] = sub.evidence
+    if subs:
+        ev = chk.evidence
+        cov = ev["coverage"]
+        cov["engines"] = {a.prop: dict(obligations=cov.get("obligations"), discharged=cov.get("discharged"), evaluations=cov["evaluations"])}
+        for eng, e in subs.items():
+            c2 = e["coverage"]
+            cov["engines"][eng] = {k: c2.get(k) for k in ("obligations", "discharged", "evaluations", "distinct_nontrivial", "theorems", "proof_files",
+                                                          "streams", "verdicts", "rule", "samples", "known_findings_seen", "proof_broken", "exhaustive_streams")}
+            for k in ("obligations", "discharged"):
+                if k in cov and k in c2:
+                    cov[k] += c2[k]
+                else:
+                    cov.pop(k, None)
+            cov["evaluations"] += c2["evaluations"]
+            cov["distinct_nontrivial"] += c2["distinct_nontrivial"]
+            cov["theorems"] = cov.get("theorems", []) + c2.get("theorems", [])
+            cov["trusted_base"] = cov["trusted_base"] + [f"[{eng}] " + t for t in c2.get("trusted_base", [])]
+            cov["known_findings_seen"] = cov.get("known_findings_seen", []) + c2.get("known_findings_seen", [])
+            ev["assumptions"] = ev.get("assumptions", []) + [f"[{eng}] " + x for x in e.get("assumptions", [])]
+            ev["violations"] = ev.get("violations", 0) + e.get("violations", 0)
+            ev["wall_s"] = round(ev["wall_s"] + e["wall_s"], 2)
+        json.dump(ev, open(os.path.join(VERIF, "evidence", f"{a.prop}.json"), "w"), indent=1, default=str)
+    return rc
 
 
 if __name__ == "__main__":
